@@ -7,6 +7,7 @@ import FlVerif.Lemmas.CodeTermParse
 import FlVerif.Lemmas.CodeTermParseOps
 import FlVerif.Lemmas.CodeRaisedStr
 import FlVerif.Lemmas.CodeBlockActImport   -- the factory look-ups of the importer (`FllImporter.tnorm` / `snorm`)
+import FlVerif.Lemmas.CodeWave5XCfg        -- `Engine.configure`, `FllImporter.component`
 
 /-! # C14 — FuzzyLite Language export / import round-trips engines
 
@@ -94,6 +95,22 @@ theorem code_fllSnorm (fll : String) :
     Gen.Code.FllImporter_snorm.run fll {} =
       (Py.Fll.lift (normOf Gen.Tables.snormKeys (textTok fll.toList))).map (fun o => { ret := some o }) :=
   code_snorm fll
+
+/-- **Tie A.**  `FllImporter.component(cls, fll)` on a stripped value = the dispatch `Py.W5.componentOf`: the first of
+    the four tests `issubclass(cls, Activation / Defuzzifier / SNorm / TNorm)` that holds selects the method, whose
+    meaning is its text-level model (`activOf`, `defuzzOf`, `normOf` over the regenerated table of S-norms / T-norms -
+    through the ties `code_fllActivation`, `code_fllDefuzzifier`, `code_fllSnorm`, `code_fllTnorm`); a class that is none
+    of the four raises `TypeError`.  (A class that is both an S-norm and a T-norm is read as an S-norm.) -/
+theorem code_fllComponent (cls : Py.W5.ClassOf) (v : String) :
+    Gen.Code.FllImporter_component.run cls (Py.Fll.strip v) {} =
+      (if cls.isActivation then (Py.Fll.activOf (Py.Fll.strip v)).map Py.W5.Component.activation
+       else if cls.isDefuzzifier then (Py.Fll.defuzzOf (Py.Fll.strip v)).map Py.W5.Component.defuzzifier
+       else if cls.isSNorm then
+         (Py.Fll.lift (normOf Gen.Tables.snormKeys (textTok (Py.Fll.strip v).toList))).map Py.W5.Component.snorm
+       else if cls.isTNorm then
+         (Py.Fll.lift (normOf Gen.Tables.tnormKeys (textTok (Py.Fll.strip v).toList))).map Py.W5.Component.tnorm
+       else .error .internal).map (fun c => { ret := some c }) :=
+  Py.W5.code_fllComponent cls v
 
 /-- `FllImporter.rule` = the text-level model `ruleOf` that `rule_block` calls: `extract_value(line, "rule")`, then
     `Rule.parse` of the model (`importRule`) on the tokens of the value -/
@@ -702,5 +719,75 @@ theorem code_importSnorm (keys : List String) (fll : String) :
     | .error e => Gen.Code.FllImporter_snorm_factory.run keys fll {} = .error (Py.BlockAct.fllErrToPy e)
     | .ok v => ∃ σ, Gen.Code.FllImporter_snorm_factory.run keys fll {} = .ok σ ∧ σ.ret = v :=
   Py.BlockAct.code_importSnorm keys fll
+
+/-! ## `Engine.configure`  (fifth wave: model `Op/Configure.lean`, translated with the state at a raise)
+
+`Gen.Code.Engine_configure` is regenerated from `engine.py`.  The engine is the record of this file's model, an argument
+is `None`, a registered name or an object (`Op.Engine.OpArg`), the four factories are a parameter (`Op.Engine.Factories`;
+for the library's own factories see `configure_unknown_tnorm`).  The translation keeps the record of the locals at a raise:
+its fields `blocks` / `outputs` are the rule blocks / output variables the two loops have assigned to. -/
+
+section Configure
+open Op.Engine
+
+/-- **Tie A (code → model), with the state at a raise.**  When the model `Op.Engine.configure` raises (a name its
+    factory rejects), the translated `configure` raises the same class and at the raise it has assigned to no rule
+    block and no output variable; otherwise the rule blocks and output variables it has assigned to - all of them, in
+    order - are those of the model's engine. -/
+theorem code_engineConfigure (F : Factories) (e : Engine) (a : ConfigArgs) :
+    match Op.Engine.configure F a e with
+    | .error err => ∃ σ, Gen.Code.Engine_configure.run F e a {} = .error (err, σ) ∧ σ.blocks = [] ∧ σ.outputs = []
+    | .ok e' => ∃ σ, Gen.Code.Engine_configure.run F e a {} = .ok σ ∧ σ.blocks = e'.blocks ∧ σ.outputs = e'.outputs :=
+  Op.Engine.code_engineConfigure F e a
+
+/-- **`None` is assigned like any other value.**  After a `configure` that returns, an operator whose argument was
+    `None` - the default of every parameter - is `None` in every rule block / output variable, whatever it was before:
+    `engine.configure(conjunction="Minimum")` clears the disjunction, implication, activation, aggregation and
+    defuzzifier of the whole engine.  (The reading "`None` leaves the operator unchanged" is refuted by
+    `configure_none_is_not_skipped`.) -/
+theorem configure_none_clears (F : Factories) (a : ConfigArgs) (e e' : Engine) (h : Op.Engine.configure F a e = .ok e') :
+    (a.conjunction = .none → ∀ b ∈ e'.blocks, b.conjunction = none) ∧
+    (a.disjunction = .none → ∀ b ∈ e'.blocks, b.disjunction = none) ∧
+    (a.implication = .none → ∀ b ∈ e'.blocks, b.implication = none) ∧
+    (a.activation = .none → ∀ b ∈ e'.blocks, b.activation = none) ∧
+    (a.aggregation = .none → ∀ v ∈ e'.outputs, v.aggregation = none) ∧
+    (a.defuzzifier = .none → ∀ v ∈ e'.outputs, v.defuzzifier = none) :=
+  Op.Engine.configure_none_clears F a e e' h
+
+/-- a witness: a block with the disjunction `Maximum`, configured with a conjunction only, has no disjunction afterwards -/
+theorem configure_none_is_not_skipped (F : Factories) (h : F.tnorm "Minimum" = .ok "Minimum") :
+    Op.Engine.configure F { conjunction := .name "Minimum" } { blocks := [{ disjunction := some "Maximum" }] } =
+      .ok { blocks := [{ conjunction := some "Minimum", disjunction := none }] } :=
+  Op.Engine.configure_none_is_not_skipped F h
+
+/-- a call that returns changes nothing but the six operators: names, descriptions, flags, rules, terms, ranges, default
+    values and the input variables are as before -/
+theorem configure_frame (F : Factories) (a : ConfigArgs) (e e' : Engine) (h : Op.Engine.configure F a e = .ok e') :
+    e'.name = e.name ∧ e'.description = e.description ∧ e'.inputs = e.inputs ∧
+    e'.blocks.map (fun b => (b.name, b.description, b.enabled, b.rules)) =
+      e.blocks.map (fun b => (b.name, b.description, b.enabled, b.rules)) ∧
+    e'.outputs.map (fun v => (v.base, v.default, v.lockPrevious)) =
+      e.outputs.map (fun v => (v.base, v.default, v.lockPrevious)) :=
+  Op.Engine.configure_frame F a e e' h
+
+/-- **A name unknown to its factory.**  If one of the six arguments is a name that its factory rejects
+    (`Op.Engine.Rejected`), the translated `configure` raises, and **at the raise no rule block and no output variable
+    has been assigned to** - the factories are consulted before the loops, also when the rejected name is the last
+    argument and the earlier ones are fine.  The class is `ValueError` when that is all the factories raise
+    (`OnlyValueError`: `ConstructionFactory.construct` for an unregistered key). -/
+theorem configure_unknown_name_unchanged (F : Factories) (e : Engine) (a : ConfigArgs) (h : Rejected F a) :
+    ∃ err σ, Gen.Code.Engine_configure.run F e a {} = .error (err, σ) ∧ σ.blocks = [] ∧ σ.outputs = [] ∧
+      (OnlyValueError F → err = .value) :=
+  Op.Engine.configure_unknown_name_unchanged F e a h
+
+/-- with the T-norm factory of the library (the regenerated table of registered T-norms): a conjunction that is not a
+    registered T-norm - e.g. the S-norm `Maximum`, or the empty name - raises `ValueError` and nothing is assigned -/
+theorem configure_unknown_tnorm (F : Factories) (e : Engine) (a : ConfigArgs) (s : String)
+    (hF : F.tnorm = Py.Fll.constructNorm Gen.Tables.tnormKeys) (ha : a.conjunction = .name s)
+    (hs : s ∉ Gen.Tables.tnormKeys) :
+    ∃ σ, Gen.Code.Engine_configure.run F e a {} = .error (.value, σ) ∧ σ.blocks = [] ∧ σ.outputs = [] :=
+  Op.Engine.configure_unknown_tnorm F e a s hF ha hs
+
+end Configure
 
 end C14
